@@ -168,6 +168,12 @@ func UnmarshalValue(span herrors.Span, self interface{}) (*Value, *VmInterrupt) 
 	switch self := self.(type) {
 	case string:
 		return NewValueString(self), nil
+	case json.Number:
+		if asInt, err := strconv.ParseInt(self.String(), 10, 64); err == nil {
+			return NewValueInt(asInt), nil
+		}
+		asFloat, _ := self.Float64()
+		return NewValueFloat(asFloat), nil
 	case float64:
 		if float64(int64(self)) == self {
 			return NewValueInt(int64(self)), nil
